@@ -197,7 +197,7 @@ func c05Run(t *testing.T, cj []byte, res *vfResult) {
 	res.Log = lines
 
 	// probes
-	window := false // another task ran between the worker's last pop and its deferred restart lock
+	window := false     // another task ran between the worker's last pop and its deferred restart lock
 	minStart := 1 << 30 // the deferred restart is the first lock site inside start()
 	for _, st := range trace {
 		if strings.HasPrefix(st.Site, "operations.go:start:") {
